@@ -347,13 +347,18 @@ class World(EventDispatcher):
         # entity) is dropped, so that it cannot make every later call fail
         while self._dead_entities:
             entity = next(iter(self._dead_entities))
+            row = self._entities.get(entity)
             try:
                 self._clear_dead_entity(entity)
             except BaseException:
                 if entity not in self._entities:
                     self._dead_entities.discard(entity)
                 raise
-            self._dead_entities.discard(entity)
+            # A callback may have created a new entity under this
+            # identifier and asked for its deletion in turn: that mark
+            # belongs to the new entity, it is served by a later pass
+            if self._entities.get(entity, row) is row:
+                self._dead_entities.discard(entity)
 
     def _clear_dead_entity(self, entity: Hashable):
         """Finalize deletion of one entity, see _clear_dead_entities."""
